@@ -11,7 +11,8 @@ except Exception:
 dst = f"/verif/seeded/{name}"
 os.makedirs(dst, exist_ok=True)
 for f in ("patch.diff", "demo.py"):
-    shutil.copy(os.path.join(d, f), os.path.join(dst, f))
+    if os.path.abspath(d) != os.path.abspath(dst):
+        shutil.copy(os.path.join(d, f), os.path.join(dst, f))
 meta = json.load(open(os.path.join(d, "meta.json")))
 meta["confirmed"] = {k: v for k, v in res.items() if k.startswith("demo") or k == "suite"}
 meta["checks_run"] = {k[6:]: v for k, v in res.items() if k.startswith("check_")}
